@@ -83,7 +83,7 @@ Definition finding_sched : sched :=
 
 Lemma async_unsub_panic_reachable :
   exists progs s, Panicked (run (init 0%Z false 0%Z progs) s) /\
-    c_panic (run (init 0%Z false 0%Z progs) s) = Some SendOnClosed /\
+    c_panic (run (init 0%Z false 0%Z progs) s) = Some PSendOnClosed /\
     (* the publish call and the Unsub had both returned normally before *)
     (exists th, nth_error (c_threads (run (init 0%Z false 0%Z progs) s)) 0 = Some th /\
                 th_rets th = [RChan 0; RUnit; RNil]).
@@ -252,7 +252,7 @@ Lemma unsub_unknown_solo c t th o ob sub rest ch1 ch2 :
   run c [(t, ch1); (t, ch2)] =
   Config (upd o (set_wr ob None) (c_objs c)) (c_chans c) (c_wg c)
          (upd t (Thread rest PIdle (th_rets th ++ [RErr ErrAlreadyUnsubscribed])) (c_threads c))
-         (c_trace c) None.
+         (EUnlock t (length (th_rets th)) o (RErr ErrAlreadyUnsubscribed) (o_subs ob) :: ELock t (length (th_rets th)) o (CUnsub o (Some sub)) (o_subs ob) :: c_trace c) None.
 Proof.
   intros Hp Ht Hpc Hpr Ho Hl Hn.
   assert (Lt : t < length (c_threads c)) by (eapply nth_error_some_lt; eauto).
@@ -279,7 +279,8 @@ Lemma unsub_known_solo c t th o ob sub rest chn ch1 ch2 ch3 :
   Config (upd o (set_wr (set_subs ob (remove Nat.eq_dec sub (o_subs ob))) None) (c_objs c))
          (upd sub (Chan (ch_buf chn) (ch_cap chn) true) (c_chans c)) (c_wg c)
          (upd t (Thread rest PIdle (th_rets th ++ [RNil])) (c_threads c))
-         (EClose t o sub :: c_trace c) None.
+         (EUnlock t (length (th_rets th)) o RNil (remove Nat.eq_dec sub (o_subs ob)) :: EClose t o sub ::
+          ELock t (length (th_rets th)) o (CUnsub o (Some sub)) (o_subs ob) :: c_trace c) None.
 Proof.
   intros Hp Ht Hpc Hpr Ho Hl Hin ND Hc Hop.
   assert (Lt : t < length (c_threads c)) by (eapply nth_error_some_lt; eauto).
@@ -353,7 +354,7 @@ Lemma unsuball_solo c t th o ob rest :
   Config (upd o (set_wr (set_subs ob []) None) (c_objs c))
          (close_all (o_subs ob) (c_chans c)) (c_wg c)
          (upd t (Thread rest PIdle (th_rets th ++ [RNil])) (c_threads c))
-         (rev (map (EClose t o) (o_subs ob)) ++ c_trace c) None.
+         (EUnlock t (length (th_rets th)) o RNil [] :: rev (map (EClose t o) (o_subs ob)) ++ ELock t (length (th_rets th)) o (CUnsubAll o) (o_subs ob) :: c_trace c) None.
 Proof.
   intros Hp Ht Hpc Hpr Ho Hl ND Hop.
   assert (Lt : t < length (c_threads c)) by (eapply nth_error_some_lt; eauto).
@@ -391,7 +392,11 @@ Lemma withonly_solo c t th o ob sub rest ch1 ch2 :
                     end) [] None None (o_timeout ob) (o_cb ob) 0%Z])
          (c_chans c) (c_wg c)
          (upd t (Thread rest PIdle (th_rets th ++ [RView (length (c_objs c))])) (c_threads c))
-         (c_trace c) None.
+         (EViewRet t (length (th_rets th)) o (length (c_objs c))
+                   (match sub with
+                    | Some s => if in_dec Nat.eq_dec s (o_subs ob) then [s] else []
+                    | None => []
+                    end) (o_subs ob) :: EViewLock t (length (th_rets th)) o sub (o_subs ob) :: c_trace c) None.
 Proof.
   intros Hp Ht Hpc Hpr Ho Hl ND.
   assert (Lt : t < length (c_threads c)) by (eapply nth_error_some_lt; eauto).
@@ -428,7 +433,7 @@ Inductive send_trans (c : config) (t : tid) (th : thread) (k : callid) (p : pair
           (timeout : Z) (cb : bool) (pc_sent pc_cb : pc) : config -> Prop :=
 | S_Panic chn :
     nth_error (c_chans c) (p_sub p) = Some chn -> ch_closed chn = true ->
-    send_trans c t th k p timeout cb pc_sent pc_cb (do_panic c t SendOnClosed)
+    send_trans c t th k p timeout cb pc_sent pc_cb (do_panic c t PSendOnClosed)
 | S_Buf chn :
     nth_error (c_chans c) (p_sub p) = Some chn -> ch_closed chn = false ->
     length (ch_buf chn) < ch_cap chn ->
@@ -463,14 +468,15 @@ Inductive trans (c : config) (t : tid) (th : thread) : config -> Prop :=
     starts th (CWithOnly o sub) rest ->
     nth_error (c_objs c) o = Some ob -> rlock_free ob = true ->
     trans c t th
-      (set_thread (set_obj c o (set_rd ob (t :: o_rd ob))) t
-         (Thread rest (PWithOnlyU o (PsObj (withonly_loop sub (o_subs ob)) [] None None (o_timeout ob) (o_cb ob) 0%Z))
-                 (th_rets th)))
+      (log (set_thread (set_obj c o (set_rd ob (t :: o_rd ob))) t
+              (Thread rest (PWithOnlyU o (PsObj (withonly_loop sub (o_subs ob)) [] None None (o_timeout ob) (o_cb ob) 0%Z))
+                      (th_rets th)))
+           [EViewLock t (length (th_rets th)) o sub (o_subs ob)])
 | T_SubPanic l rest o size ob :
     starts th (call_of l) rest ->
     (l = LSub o /\ size = o_defbuf ob \/ l = LSubBuf o size) ->
     nth_error (c_objs c) o = Some ob -> lock_free t ob = true -> (size < 0)%Z ->
-    trans c t th (do_panic c t OtherPanic)
+    trans c t th (do_panic c t PMakeChan)
 | T_SubStart l rest o size ob :
     starts th (call_of l) rest ->
     (l = LSub o /\ size = o_defbuf ob \/ l = LSubBuf o size) ->
@@ -479,7 +485,7 @@ Inductive trans (c : config) (t : tid) (th : thread) : config -> Prop :=
       (log (set_thread (set_obj (set_chans c (c_chans c ++ [Chan [] (Z.to_nat size) false]))
                                 o (set_subs (set_wr ob (Some t)) (o_subs ob ++ [length (c_chans c)])))
                        t (Thread rest (PSubU o (length (c_chans c))) (th_rets th)))
-           [ESub o (length (c_chans c))])
+           [ESub o (length (c_chans c)); ELock t (length (th_rets th)) o (call_of l) (o_subs ob)])
 | T_Announce l rest ob :
     th_pc th = PIdle -> th_prog th = call_of l :: rest ->
     nth_error (c_objs c) (lock_target l) = Some ob -> lock_free t ob = false -> can_announce ob = true ->
@@ -492,14 +498,16 @@ Inductive trans (c : config) (t : tid) (th : thread) : config -> Prop :=
     starts th (CUnsub o (Some sub)) rest ->
     nth_error (c_objs c) o = Some ob -> lock_free t ob = true ->
     trans c t th
-      (set_thread (set_obj c o (set_wr ob (Some t))) t
-         (Thread rest (if (sub_index (o_subs ob) sub =? -1)%Z then PUnsubU o (RErr ErrAlreadyUnsubscribed)
-                       else PUnsubClose o (Z.to_nat (sub_index (o_subs ob) sub))) (th_rets th)))
+      (log (set_thread (set_obj c o (set_wr ob (Some t))) t
+              (Thread rest (if (sub_index (o_subs ob) sub =? -1)%Z then PUnsubU o (RErr ErrAlreadyUnsubscribed)
+                            else PUnsubClose o (Z.to_nat (sub_index (o_subs ob) sub))) (th_rets th)))
+           [ELock t (length (th_rets th)) o (CUnsub o (Some sub)) (o_subs ob)])
 | T_UnsubAllStart rest o ob :
     starts th (CUnsubAll o) rest ->
     nth_error (c_objs c) o = Some ob -> lock_free t ob = true ->
     trans c t th
-      (set_thread (set_obj c o (set_wr ob (Some t))) t (Thread rest (PUnsubAllLoop o (o_subs ob)) (th_rets th)))
+      (log (set_thread (set_obj c o (set_wr ob (Some t))) t (Thread rest (PUnsubAllLoop o (o_subs ob)) (th_rets th)))
+           [ELock t (length (th_rets th)) o (CUnsubAll o) (o_subs ob)])
 | T_RecvVal ci chn v buf' :
     recv_target th = Some ci -> nth_error (c_chans c) ci = Some chn -> ch_buf chn = v :: buf' ->
     trans c t th
@@ -545,29 +553,30 @@ Inductive trans (c : config) (t : tid) (th : thread) : config -> Prop :=
     trans c t th (log (set_thread c t (with_pc th (after_send wg k p))) [EDone k p; ECallback k p])
 | T_GoDonePanic k p :
     th_pc th = PGoDone k p -> c_wg c (k_tid k) (k_n k) = 0 ->
-    trans c t th (do_panic c t OtherPanic)
+    trans c t th (do_panic c t PNegWaitGroup)
 | T_GoDone k p m :
     th_pc th = PGoDone k p -> c_wg c (k_tid k) (k_n k) = S m ->
     trans c t th (set_thread (set_wg c (wg_set (c_wg c) (k_tid k) (k_n k) m)) t (with_pc th PExit))
 | T_WithOnlyU o clone ob :
     th_pc th = PWithOnlyU o clone -> nth_error (c_objs c) o = Some ob ->
     trans c t th
-      (set_thread (set_objs c (upd o (set_rd ob (remove_one t (o_rd ob))) (c_objs c) ++ [clone]))
-                  t (returns th (RView (length (c_objs c)))))
+      (log (set_thread (set_objs c (upd o (set_rd ob (remove_one t (o_rd ob))) (c_objs c) ++ [clone]))
+                       t (returns th (RView (length (c_objs c)))))
+           [EViewRet t (length (th_rets th)) o (length (c_objs c)) (o_subs clone) (o_subs ob)])
 | T_SubU o ci ob :
     th_pc th = PSubU o ci -> nth_error (c_objs c) o = Some ob ->
-    trans c t th (set_thread (set_obj c o (set_wr ob None)) t (returns th (RChan ci)))
+    trans c t th (log (set_thread (set_obj c o (set_wr ob None)) t (returns th (RChan ci))) [EUnlock t (length (th_rets th)) o (RChan ci) (o_subs ob)])
 | T_UnsubCloseIdx o idx ob :
     th_pc th = PUnsubClose o idx -> nth_error (c_objs c) o = Some ob -> nth_error (o_subs ob) idx = None ->
-    trans c t th (do_panic c t IndexOutOfRange)
+    trans c t th (do_panic c t PIndex)
 | T_UnsubCloseNil o idx ob ci :
     th_pc th = PUnsubClose o idx -> nth_error (c_objs c) o = Some ob -> nth_error (o_subs ob) idx = Some ci ->
     nth_error (c_chans c) ci = None ->
-    trans c t th (do_panic c t NilDeref)
+    trans c t th (do_panic c t PCloseOfNil)
 | T_UnsubCloseClosed o idx ob ci chn :
     th_pc th = PUnsubClose o idx -> nth_error (c_objs c) o = Some ob -> nth_error (o_subs ob) idx = Some ci ->
     nth_error (c_chans c) ci = Some chn -> ch_closed chn = true ->
-    trans c t th (do_panic c t SendOnClosed)
+    trans c t th (do_panic c t PCloseOfClosed)
 | T_UnsubCloseOk o idx ob ci chn :
     th_pc th = PUnsubClose o idx -> nth_error (c_objs c) o = Some ob -> nth_error (o_subs ob) idx = Some ci ->
     nth_error (c_chans c) ci = Some chn -> ch_closed chn = false ->
@@ -577,13 +586,13 @@ Inductive trans (c : config) (t : tid) (th : thread) : config -> Prop :=
                   t (with_pc th (PUnsubU o RNil)))
 | T_UnsubU o r ob :
     th_pc th = PUnsubU o r -> nth_error (c_objs c) o = Some ob ->
-    trans c t th (set_thread (set_obj c o (set_wr ob None)) t (returns th r))
+    trans c t th (log (set_thread (set_obj c o (set_wr ob None)) t (returns th r)) [EUnlock t (length (th_rets th)) o r (o_subs ob)])
 | T_UnsubAllNil o ci rest :
     th_pc th = PUnsubAllLoop o (ci :: rest) -> nth_error (c_chans c) ci = None ->
-    trans c t th (do_panic c t NilDeref)
+    trans c t th (do_panic c t PCloseOfNil)
 | T_UnsubAllClosed o ci rest chn :
     th_pc th = PUnsubAllLoop o (ci :: rest) -> nth_error (c_chans c) ci = Some chn -> ch_closed chn = true ->
-    trans c t th (do_panic c t SendOnClosed)
+    trans c t th (do_panic c t PCloseOfClosed)
 | T_UnsubAllClose o ci rest chn :
     th_pc th = PUnsubAllLoop o (ci :: rest) -> nth_error (c_chans c) ci = Some chn -> ch_closed chn = false ->
     trans c t th
@@ -591,7 +600,7 @@ Inductive trans (c : config) (t : tid) (th : thread) : config -> Prop :=
                   t (with_pc th (PUnsubAllLoop o rest)))
 | T_UnsubAllEnd o ob :
     th_pc th = PUnsubAllLoop o [] -> nth_error (c_objs c) o = Some ob ->
-    trans c t th (set_thread (set_obj c o (set_wr (set_subs ob []) None)) t (returns th RNil)).
+    trans c t th (log (set_thread (set_obj c o (set_wr (set_subs ob []) None)) t (returns th RNil)) [EUnlock t (length (th_rets th)) o RNil []]).
 
 Lemma step_send_trans c t th ch k p timeout cb pc_sent pc_cb c' :
   step_send c t th ch k p timeout cb pc_sent pc_cb = Some c' ->
@@ -1742,5 +1751,5 @@ Qed.
 Definition stale_view_progs : list (list call) :=
   [[CSubBuf 0 1%Z; CWithOnly 0 (Some 0); CUnsub 0 (Some 0); CPubOne Sync 1 1%Z]].
 Lemma stale_view_panic_reachable :
-  c_panic (run (init 0%Z false 0%Z stale_view_progs) (repeat (0, Plain) 9)) = Some SendOnClosed.
+  c_panic (run (init 0%Z false 0%Z stale_view_progs) (repeat (0, Plain) 9)) = Some PSendOnClosed.
 Proof. vm_compute. reflexivity. Qed.
